@@ -25,6 +25,7 @@ func (fr *frame) call(x *ssa.Call) {
 	if res == nil {
 		res = fr.freshTuple(x.Name(), x.Type())
 	}
+	fr.registerFailure(x, c, args, res)
 	if res.Tup == nil {
 		if _, isTup := x.Type().(*types.Tuple); !isTup {
 			fr.set(x, res)
@@ -98,7 +99,12 @@ func (fr *frame) callCommon(site ssa.Value, c *ssa.CallCommon, args []*Val, rt t
 	return r
 }
 
+// ifaceKey: "iface:pkg.Type.Method" for a method of a named interface type.
 func ifaceKey(c *ssa.CallCommon) string {
+	t := c.Value.Type()
+	if n, ok := types.Unalias(t).(*types.Named); ok && n.Obj().Pkg() != nil {
+		return "iface:" + n.Obj().Pkg().Name() + "." + n.Obj().Name() + "." + c.Method.Name()
+	}
 	return "iface:" + c.Method.FullName()
 }
 
@@ -559,4 +565,48 @@ func (e *Env) implementations(c *ssa.CallCommon) []*ssa.Function {
 		}
 	}
 	return out
+}
+
+// registerFailure: fail-stop bookkeeping for a call site (kind failstop only).
+func (fr *frame) registerFailure(x *ssa.Call, c *ssa.CallCommon, args []*Val, res *Val) {
+	ft := fr.ft
+	if !ft.kinds["failstop"] {
+		return
+	}
+	name := calleeName(c)
+	text := ft.e.srcText(x.Pos(), "call")
+	// reads: a failure is a short read (n < len(p)); an EOF together with a full buffer is not a failure
+	switch name {
+	case "(io.ReaderAt).ReadAt", "io.ReadFull", "(io.Reader).Read":
+		if res.Tup != nil && len(res.Tup) == 2 {
+			var p *Val
+			if name == "(io.ReaderAt).ReadAt" {
+				p = args[0]
+			} else if len(args) >= 2 {
+				p = args[1]
+			} else if len(args) == 1 {
+				p = args[0]
+			}
+			if p != nil && isSlice(p.T) {
+				fr.noteFailure(text, x.Pos(), app(SBool, "bvslt", res.Tup[0].L[0], p.sLen()))
+			}
+		}
+		return
+	}
+	// any other call whose last result is an error
+	var last *Val
+	switch {
+	case res.Tup != nil && len(res.Tup) > 0:
+		last = res.Tup[len(res.Tup)-1]
+	case res.Tup == nil:
+		last = res
+	}
+	if last == nil || last.T == nil || !isInterface(last.T) || last.T.String() != "error" || len(last.L) == 0 {
+		return
+	}
+	// error constructors are not failures of a callee
+	if name == "errors.New" || name == "fmt.Errorf" || strings.HasPrefix(name, "errors.") {
+		return
+	}
+	fr.noteFailure(text, x.Pos(), mkNot(mkEq(last.L[0], intConst(0))))
 }
